@@ -70,6 +70,7 @@ type Case struct {
 	Tx   string   `json:"tx"` // hex of the full (signed) encoding
 	Ts   uint64   `json:"ts"`
 	Fork bool     `json:"fork"`
+	Twin bool     `json:"twin,omitempty"` // the fork-flipped twin of a generated case
 	// real-store mode: the history replayed into a temp-dir storage.BadgerStore; View is
 	// then ignored and recomputed from these bodies
 	Badger *BadgerSpec `json:"badger,omitempty"`
